@@ -139,7 +139,7 @@ impl<'r> Variants<'r> {
             }
         };
         cmp("second-identical-run", &run(cfg, problem, seed, Backend::Default, false, None, 0));
-        let cloned = cfg.clone();
+        let cloned: Configuration<P> = Configuration::clone(cfg);
         cmp("cloned-configuration", &run(&cloned, problem, seed, Backend::Default, false, None, 0));
         for (pi, pool) in self.pools.iter().enumerate() {
             for k in 0..self.nonces {
